@@ -263,7 +263,7 @@ def gen(r, tier):
     for k, have in ((256, [0]), (257, [1]), (257, [0]), (258, [0]), (300, [0]), (300, [150]), (300, [0, 299]),
                     (257, [256]), (600, [1, 2, 3]), (257, list(range(1, 257))), (520, list(range(0, 520, 2)))):
         cases.append(gen_bitmap(r, k, have))
-    n_rand = {"quick": 500, "search": 3000, "thorough": 5000}[tier]
+    n_rand = {"quick": 500, "search": 3000, "thorough": 3500}[tier]
     for j in range(n_rand):
         x = r.random()
         f = r.choice(FSIZES[:3]) if r.random() < 0.8 else r.choice([1344, r.randint(8, 300), r.randint(8, 2000)])
